@@ -88,10 +88,11 @@ def _name_of(node):
 
 
 class Module:
-    def __init__(self, rel, path):
+    def __init__(self, rel, path, text=None):
         self.rel = rel  # e.g. quic/stream.py
         self.path = path
-        self.text = open(path).read()
+        self.extern = text is not None
+        self.text = open(path).read() if text is None else text
         self.tree = ast.parse(self.text)
         self.classes: dict[str, ClassInfo] = {}
         self.functions: dict[str, ast.FunctionDef] = {}
@@ -111,9 +112,11 @@ class Module:
 
 
 class Index:
-    def __init__(self, src=None):
+    def __init__(self, src=None, extern=None):
         self.src = src or SRC
         self.modules: dict[str, Module] = {}
+        for rel, text in (extern or {}).items():
+            self.modules[rel] = Module(rel, "<extern:%s>" % rel, text=text)
         for root, _dirs, files in os.walk(self.src):
             for f in sorted(files):
                 if f.endswith(".py"):
@@ -178,7 +181,8 @@ class Index:
         c = self.classes.get(name)
         if c is not None:
             return c.bases[0] if c.bases else None
-        return "Exception"
+        # unknown name: an exception type only if it is spelled like one (third-party errors); Sequence, Enum, ... are not
+        return "Exception" if (name.endswith("Error") or name.endswith("Exception") or name.startswith("Alert")) else None
 
     def exc_is_subclass(self, name, base):
         seen = set()
